@@ -102,8 +102,9 @@ def true_extent_curve(center, radius_fn, a0, a1, n=3600):
 
 def main():
     ck = Check('C09')
-    ck.build_theories(['theories/Props/C09.vo', 'theories/Corr/BoundsK.vo'])
+    ck.build_theories(['theories/Props/C09.vo', 'theories/Props/C09b.vo', 'theories/Corr/BoundsK.vo'])
     ck.props('Props/C09.v')
+    ck.props('Props/C09b.v')      # D10 refuted with the real haversine of C07 (Reals + Interval)
     rng = ck.rng
     cases, meta, nontriv = [], [], set()
     prop_viol = []
